@@ -101,13 +101,19 @@ CHECKS = {
         "text": "Deductive core + bounded stand-in. Proved for all inputs (unbounded): dataset.update_labels - the "
                 "accepted-target count brew compares with the best feature is the C01 label rule applied to GENUINE "
                 "targets (label == 1 / True) for integer (1/-1, 1/0) and bool label columns, through the verified "
-                "contract of utils.convert_targets_column and the assumed reader contract. Bounded (not proof): brew "
+                "contract of utils.convert_targets_column and the assumed reader contract; and the fallback block of "
+                "brew (brew#fallback, calling that contract per collection): the learned scores are kept only if the "
+                "models are forced or NO model's best feature passed more targets than the learned scores did; "
+                "otherwise every collection gets the values of the feature with the (first) maximal pass count "
+                "together with that feature's direction. Bounded (not proof): brew "
                 "with estimators that cannot learn, three label encodings, both feature directions, Parquet and text; "
                 "direction handling of assign_confidence. Three bounded findings (direction ignored, best_feat values, "
                 "NaN scores from a constant estimator) are listed in known_findings.json.",
         "design_ref": "DESIGN.md 4.C07",
         "note": "reader contract assumed (read(columns=[c]) returns column c of the file); DataFrame modelled as "
-                "abstract frame with int/bool column views; the comparison block of brew is bounded-only",
+                "abstract frame with int/bool column views; in brew#fallback the model attributes are read-only functions "
+                "of the model object, read_data(columns=[c]).values is column c (assumed) and the score-length / "
+                "label-column preconditions of update_labels are block assumptions",
         "technique": "sidecar contracts on the real functions; modular call of verified callee contracts; z3/cvc5; "
                      "bounded end-to-end runs",
     },
